@@ -1,7 +1,7 @@
 """Reset discipline shared by C05 (a,b) and C12 (c): per-round state is cleared by the implicit
 reset (Drop of the result types) and every field is rewritten by the explicit reset."""
 import re
-from . import core, summ
+from . import core, summ, roles as roles_mod
 from .core import op_place
 
 WORKS = {'rate::encoder_work::EncoderWork': ('encoder_result::EncoderResult', 'rate::RateEncoder'),
@@ -64,8 +64,11 @@ def on_every_path(body, bb):
 def per_round_fields(facts, work_adt):
     """fields of the work type written by its add_* methods"""
     out = {}
-    for p, f in facts.fns.items():
-        if f.impl_self_adt == work_adt and f.name.startswith('add_'):
+    R = roles_mod.roles(facts)
+    side = 'enc' if work_adt == roles_mod.ENC_WORK else 'dec'
+    for kind in ('original', 'recovery'):
+        p = R.fn.get('%s.add_%s' % (side, kind))
+        if p:
             for w in write_sites(facts, p):
                 if w[0]:
                     out.setdefault(w[0], []).append((p, w[5]))
@@ -93,7 +96,12 @@ def check_reset_discipline(ctx, facts, cfg, R_drop, R_recv, R_full):
         fields = [fl['name'] for v in adt['variants'] for fl in v['fields']]
         ftypes = {fl['name']: fl['ty'] for v in adt['variants'] for fl in v['fields']}
         pr = per_round_fields(facts, work_adt)
-        store = [f for f in pr if 'Shards' in ftypes.get(f, '')]
+        RL = roles_mod.roles(facts)
+        side = 'enc' if work_adt == roles_mod.ENC_WORK else 'dec'
+        rname = lambda f: RL.fields.get(side, {}).get(f, f)
+        store = [f for f in pr if ftypes.get(f, '') == RL.store_adt]
+        if not pr:
+            ctx.violation(R_recv, 'no-per-round-fields', 'unrecognised idiom: cannot find the work methods behind add_*_shard of %s (%s)' % (work_adt, RL.problems[:1]), fn=work_adt, cfg=cfg)
         # ---- Drop of the result type calls the implicit reset on every path
         dp = None
         for p, f in facts.fns.items():
@@ -128,18 +136,12 @@ def check_reset_discipline(ctx, facts, cfg, R_drop, R_recv, R_full):
             else:
                 some = [w for w in ws if w[0] == fld]
                 why = 'is not written at all' if not some else ('is written (%s at %s) but not by a full clearing write on every path' % (describe(some[0]), some[0][5]))
-                ctx.violation(R_recv, 'not-cleared:%s' % fld,
+                ctx.violation(R_recv, 'not-cleared:%s' % rname(fld),
                               'per-round field %s.%s (written by %s) %s in %s, which is all that runs when a result is dropped: the next round starts from stale state'
                               % (core.short(work_adt), fld, core.short(pr[fld][0][0]), why, core.short(recv_fn)),
                               site=facts.fns[recv_fn].span, fn=recv_fn, cfg=cfg)
         # ---- explicit reset: the work method called from <X as Rate*coder>::reset (through helpers)
-        full = None
-        for p, f in facts.fns.items():
-            if f.impl_trait == tr and f.name == 'reset' and (f.impl_self_adt or '').startswith('rate::rate_high'):
-                seen, _ = core.callgraph(facts).reachable([p])
-                cands = [q for q in seen if facts.fns[q].impl_self_adt == work_adt and len(facts.fns[q].inputs) >= 4]
-                if cands:
-                    full = sorted(cands)[0]
+        full = RL.fn.get('%s.reset' % side)
         if full is None:
             ctx.violation(R_full, 'no-full-reset', 'cannot find the explicit reset method of %s reached from %s::reset' % (work_adt, tr), fn=work_adt, cfg=cfg)
             continue
@@ -158,7 +160,7 @@ def check_reset_discipline(ctx, facts, cfg, R_drop, R_recv, R_full):
                     if not any(is_clearing(w, ty) for w in hits):
                         verdict = 'is written but not cleared (%s)' % describe(hits[0])
                 elif fld in store:
-                    if not any(w[1] == 'call' and re.search(r'::resize$', w[2] or '') for w in hits):
+                    if not any(w[1] == 'call' and (w[2] == RL.fn.get('store.resize') or re.search(r'Vec::<.*>::resize$', w[2] or '')) for w in hits):
                         verdict = 'shard store is not resized here'
                 else:
                     # configuration field: assigned from a parameter (or an expression of parameters)
@@ -172,7 +174,7 @@ def check_reset_discipline(ctx, facts, cfg, R_drop, R_recv, R_full):
                     if not okp:
                         verdict = 'is not assigned from the reset parameters'
             if verdict:
-                ctx.violation(R_full, 'field-not-reset:%s' % fld,
+                ctx.violation(R_full, 'field-not-reset:%s' % rname(fld),
                               'field %s.%s %s in %s: an explicit reset (or a work object handed to a new codec) keeps state from the previous configuration'
                               % (core.short(work_adt), fld, verdict, core.short(full)), site=facts.fns[full].span, fn=full, cfg=cfg)
             else:
